@@ -1,4 +1,5 @@
-(* C15 — lemmas *)
+(* C15 — lemmas, part 1: the countdown bookkeeping with its index arithmetic follows the
+   value-tracking rules of Spec.v *)
 From Coq Require Import List ZArith QArith Bool Lia.
 From PV Require Import C15.Model C15.Spec.
 Import ListNotations.
@@ -7,5 +8,460 @@ Local Open Scope Z_scope.
 Lemma below_fails : forall ref v thr, below ref v thr = fails ref v thr.
 Proof.
   intros [r|] v thr; cbn; [|reflexivity].
-  destruct (Z.ltb_spec (Z.max (r - v) 0) thr), (Z.ltb_spec 0 thr), (Z.ltb_spec (r - v) thr); cbn; try reflexivity; lia.
+  destruct (Z.ltb_spec (Z.max (r - v) 0) thr), (Z.ltb_spec 0 thr), (Z.ltb_spec (r - v) thr);
+    cbn; try reflexivity; lia.
+Qed.
+
+(* ---------- the positional history ----------------------------------------------------- *)
+Lemma last_epoch_snoc : forall c x, last_epoch (c ++ [x]) = last_epoch c + 1.
+Proof. intros. unfold last_epoch. rewrite app_length. cbn. lia. Qed.
+
+Lemma hget_range : forall c i r, hget c i = Some r -> 0 <= i <= last_epoch c.
+Proof.
+  unfold hget, last_epoch. intros c i r H.
+  destruct (Z.ltb_spec i 0); [discriminate|].
+  assert (Hn : nth_error c (Z.to_nat i) <> None) by congruence.
+  apply nth_error_Some in Hn. lia.
+Qed.
+
+Lemma hget_old : forall c x i r, hget c i = Some r -> hget (c ++ [x]) i = Some r.
+Proof.
+  unfold hget. intros c x i r H. destruct (i <? 0); [discriminate|].
+  rewrite nth_error_app1; auto. apply nth_error_Some. congruence.
+Qed.
+
+Lemma hget_new : forall c x, hget (c ++ [x]) (last_epoch c + 1) = Some x.
+Proof.
+  intros. unfold hget, last_epoch.
+  destruct (Z.ltb_spec (Z.of_nat (List.length c) - 1 + 1) 0); [lia|].
+  replace (Z.to_nat (Z.of_nat (List.length c) - 1 + 1)) with (List.length c) by lia.
+  rewrite nth_error_app2, Nat.sub_diag; auto.
+Qed.
+
+Lemma nonzero_pos : forall z, 0 <= z -> nonzero z = (0 <? z).
+Proof. intros. unfold nonzero. destruct (Z.eqb_spec z 0), (Z.ltb_spec 0 z); cbn; auto; lia. Qed.
+
+(* ---------- one patience rule against the stored countdowns ---------------------------- *)
+(* [res]/[pcd] project the resume and patience countdowns of a row.  The rule's reference
+   value sits [bad] rows back, where the patience countdown was last full; between there and
+   the last row the countdown descends by one per row. *)
+Definition RInv (res pcd : row -> Z) (pat : Z) (c : list row) (r : rule) : Prop :=
+  (exists prev, hget c (last_epoch c) = Some prev /\ res prev = wait r /\ pcd prev = pat - bad r) /\
+  0 <= wait r /\ 0 <= bad r /\ (0 < wait r -> bad r = 0) /\
+  (exists ri, hget c (last_epoch c - bad r) = Some ri /\ r_val ri = ref r) /\
+  (forall k, 0 <= k <= bad r ->
+             exists rk, hget c (last_epoch c - k) = Some rk /\ pcd rk = pat - bad r + k).
+
+Lemma RInv_reset : forall res pcd pat c r x w v,
+  RInv res pcd pat c r -> 0 <= w -> res x = w -> pcd x = pat -> r_val x = Some v ->
+  RInv res pcd pat (c ++ [x]) (mkRule w (Some v) 0).
+Proof.
+  intros res pcd pat c r x w v _ Hw Hres Hpcd Hval. unfold RInv. rewrite last_epoch_snoc. cbn [wait bad ref].
+  repeat split; try lia.
+  - exists x. rewrite hget_new. repeat split; auto. lia.
+  - exists x. replace (last_epoch c + 1 - 0) with (last_epoch c + 1) by lia. rewrite hget_new. auto.
+  - intros k Hk. assert (k = 0) by lia. subst k. exists x.
+    replace (last_epoch c + 1 - 0) with (last_epoch c + 1) by lia. rewrite hget_new. split; auto. lia.
+Qed.
+
+Lemma RInv_fail : forall res pcd pat c r x,
+  RInv res pcd pat c r -> wait r = 0 -> res x = 0 -> pcd x = pat - bad r - 1 ->
+  RInv res pcd pat (c ++ [x]) (mkRule 0 (ref r) (bad r + 1)).
+Proof.
+  intros res pcd pat c r x (_ & Hw & Hb & _ & (ri & Hri & Hrv) & Hk) Hw0 Hres Hpcd.
+  unfold RInv. rewrite last_epoch_snoc. cbn [wait bad ref].
+  repeat split; try lia.
+  - exists x. rewrite hget_new. repeat split; auto. lia.
+  - exists ri. split; auto. apply hget_old.
+    replace (last_epoch c + 1 - (bad r + 1)) with (last_epoch c - bad r) by lia. exact Hri.
+  - intros k Hk'. destruct (Z.eq_dec k 0) as [->|Hne].
+    + exists x. replace (last_epoch c + 1 - 0) with (last_epoch c + 1) by lia. rewrite hget_new. split; auto. lia.
+    + destruct (Hk (k - 1)) as (rk & Hrk & Hp); [lia|]. exists rk. split.
+      * apply hget_old. replace (last_epoch c + 1 - k) with (last_epoch c - (k - 1)) by lia. exact Hrk.
+      * lia.
+Qed.
+
+(* what the rule does to the pair of countdowns of the new row *)
+Lemma RInv_step : forall res pcd pat c r x thr v,
+  RInv res pcd pat c r -> wait r = 0 \/ bad r = 0 ->
+  res x = wait (rule_step r thr v) -> pcd x = pat - bad (rule_step r thr v) -> r_val x = Some v ->
+  RInv res pcd pat (c ++ [x]) (rule_step r thr v).
+Proof.
+  intros res pcd pat c r x thr v H Hwb. pose proof H as (_ & Hw & Hb & Hwz & _).
+  unfold rule_step. destruct (Z.ltb_spec 0 (wait r)).
+  - cbn [wait bad]. intros. eapply RInv_reset; eauto; lia.
+  - destruct (fails (ref r) v thr); cbn [wait bad]; intros.
+    + eapply RInv_fail; eauto; lia.
+    + eapply RInv_reset; eauto; lia.
+Qed.
+
+Lemma some2 : forall (a a' b b' : Z), a = a' -> b = b' -> Some (a, b) = Some (a', b').
+Proof. intros; subst; reflexivity. Qed.
+Lemma some4 : forall (a a' b b' : Z) (x y : Q), a = a' -> b = b' -> Some (a, b, x, y) = Some (a', b', x, y).
+Proof. intros; subst; reflexivity. Qed.
+
+(* ---------- es_step / rlr_step computed through the rule ---------------------------------- *)
+Lemma es_step_spec : forall p c prev r v,
+  RInv r_esres r_espcd (es_pat p) c r -> hget c (last_epoch c) = Some prev -> bad r < es_pat p ->
+  es_step p c prev (last_epoch c + 1) v
+  = Some (wait (rule_step r (es_thr p) v), es_pat p - bad (rule_step r (es_thr p) v)).
+Proof.
+  intros p c prev r v ((prev' & Hp' & Hres & Hpcd) & Hw & Hb & Hwz & (ri & Hri & Hrv) & _) Hprev Hlt.
+  rewrite Hprev in Hp'. injection Hp' as <-.
+  unfold es_step, rule_step. rewrite Hres, Hpcd, nonzero_pos by lia.
+  replace (last_epoch c + 1 - es_pat p + (es_pat p - bad r) - 1) with (last_epoch c - bad r) by lia.
+  rewrite Hri, Hrv, below_fails.
+  destruct (Z.ltb_spec 0 (wait r)).
+  - cbn [wait bad]. rewrite (Hwz H). apply some2; lia.
+  - assert (wait r = 0) as -> by lia.
+    destruct (fails (ref r) v (es_thr p)); cbn [wait bad].
+    + destruct (Z.ltb_spec (es_pat p - bad r - 1) 0); [lia|]. apply some2; lia.
+    + apply some2; lia.
+Qed.
+
+Definition new_rate (p : params) (rate : Q) (fire : bool) : Q :=
+  if fire && Qlt_b (rlr_eps p) (rate - Qred (rate * rlr_fac p)) then Qred (rate * rlr_fac p) else rate.
+
+Lemma rlr_step_spec : forall p c prev r v rate,
+  RInv r_rlrres r_rlrpcd (rlr_pat p) c r -> hget c (last_epoch c) = Some prev -> bad r < rlr_pat p ->
+  let r1 := rule_step r (rlr_thr p) v in
+  let fire := bad r1 =? rlr_pat p in
+  let r' := if fire then mkRule (rlr_cool p) (Some v) 0 else r1 in
+  rlr_step p c prev (last_epoch c + 1) v rate rate
+  = Some (wait r', rlr_pat p - bad r', new_rate p rate fire, new_rate p rate fire).
+Proof.
+  intros p c prev r v rate ((prev' & Hp' & Hres & Hpcd) & Hw & Hb & Hwz & (ri & Hri & Hrv) & _) Hprev Hlt.
+  rewrite Hprev in Hp'. injection Hp' as <-.
+  unfold rlr_step, rule_step, new_rate. rewrite Hres, Hpcd, nonzero_pos by lia.
+  replace (last_epoch c + 1 - rlr_pat p + (rlr_pat p - bad r) - 1) with (last_epoch c - bad r) by lia.
+  rewrite Hri, Hrv, below_fails.
+  destruct (Z.ltb_spec 0 (wait r)).
+  - cbn [wait bad]. rewrite (Hwz H). destruct (Z.eqb_spec 0 (rlr_pat p)); [lia|]. cbn [andb wait bad].
+    apply some4; lia.
+  - assert (wait r = 0) as -> by lia.
+    destruct (fails (ref r) v (rlr_thr p)); cbn [wait bad].
+    + unfold nonzero. destruct (Z.eqb_spec (rlr_pat p - bad r - 1) 0), (Z.eqb_spec (bad r + 1) (rlr_pat p));
+        try lia; cbn [negb andb wait bad].
+      * destruct (Qlt_b (rlr_eps p) (rate - Qred (rate * rlr_fac p))); apply some4; lia.
+      * apply some4; lia.
+    + destruct (Z.eqb_spec 0 (rlr_pat p)); [lia|]. cbn [andb wait bad]. apply some4; lia.
+Qed.
+
+(* ---------- whole controller state against the spec state -------------------------------------- *)
+Definition lr_of (dflt : Q) (r : row) : Q := match r_lr r with Some l => l | None => dflt end.
+
+Definition Inv (p : params) (dflt : Q) (st : state) (s : sstate) : Prop :=
+  s_epoch s = last_epoch (cache st) /\
+  RInv r_esres r_espcd (es_pat p) (cache st) (s_es s) /\
+  RInv r_rlrres r_rlrpcd (rlr_pat p) (cache st) (s_rl s) /\
+  bad (s_rl s) < rlr_pat p /\ bad (s_es s) <= es_pat p /\
+  (exists prev, hget (cache st) (last_epoch (cache st)) = Some prev /\ lr_of dflt prev = s_rate s) /\
+  opt st = s_rate s.
+
+Lemma Inv_init : forall p dflt, wf p -> Inv p dflt (init_state p dflt) (s_init p dflt).
+Proof.
+  intros p dflt (H1 & H2 & H3 & H4 & H5 & H6 & H7).
+  unfold Inv, init_state, s_init, RInv, last_epoch. cbn [cache opt s_epoch s_es s_rl s_rate wait bad ref List.length].
+  change (Z.of_nat 1 - 1) with 0. change (0 - 0) with 0. cbn [hget Z.ltb Z.compare Z.to_nat nth_error].
+  repeat split; try lia.
+  - exists (row0 p). cbn. repeat split; lia.
+  - exists (row0 p). auto.
+  - intros k Hk. assert (k = 0) by lia. subst. exists (row0 p). cbn. split; auto. lia.
+  - exists (row0 p). cbn. repeat split; lia.
+  - exists (row0 p). auto.
+  - intros k Hk. assert (k = 0) by lia. subst. exists (row0 p). cbn. split; auto. lia.
+  - exists (row0 p). split; auto.
+Qed.
+
+Lemma rule_step_bad : forall r thr v, 0 <= bad r -> 0 <= bad (rule_step r thr v) <= bad r + 1.
+Proof.
+  intros. unfold rule_step. destruct (0 <? wait r); cbn; try lia.
+  destruct (fails (ref r) v thr); cbn; lia.
+Qed.
+
+Lemma rule_step_thr0 : forall r v, bad (rule_step r 0 v) = 0.
+Proof.
+  intros. unfold rule_step. destruct (0 <? wait r); cbn; auto.
+  unfold fails. destruct (ref r); cbn; auto.
+Qed.
+
+(* One call of update_for_epoch with acceptable keyword arguments, early stopping not yet fired. *)
+Lemma update_follows : forall rnd p decl dflt st s tr v kw u,
+  wf p -> Inv p dflt st s -> bad (s_es s) < es_pat p ->
+  check_kwargs decl kw = None -> collect decl kw = Some u ->
+  let c := fst (s_step p s v) in
+  let s' := snd (s_step p s v) in
+  exists info,
+    update rnd p decl dflt st tr v kw
+    = inr (c, mkState (cache st ++ [info])
+                      (csv st ++ [mkCrow (r_epoch info) (r_esres info) (r_espcd info) (r_rlrres info) (r_rlrpcd info)
+                                         (rnd (s_rate s')) tr v (map (fun nv => print_uval (snd nv)) u)])
+                      (s_rate s') ((r_epoch info, s_rate s') :: ckpt st)) /\
+    r_lr info = Some (s_rate s') /\ r_user info = u /\ r_val info = Some v /\ r_train info = Some tr /\
+    r_epoch info = s_epoch s' /\
+    Inv p dflt (mkState (cache st ++ [info]) (csv st ++ [mkCrow (r_epoch info) (r_esres info) (r_espcd info) (r_rlrres info) (r_rlrpcd info)
+                                         (rnd (s_rate s')) tr v (map (fun nv => print_uval (snd nv)) u)])
+                      (s_rate s') ((r_epoch info, s_rate s') :: ckpt st)) s' /\
+    continue_training p (mkState (cache st ++ [info]) (csv st ++ [mkCrow (r_epoch info) (r_esres info) (r_espcd info) (r_rlrres info) (r_rlrpcd info)
+                                         (rnd (s_rate s')) tr v (map (fun nv => print_uval (snd nv)) u)])
+                      (s_rate s') ((r_epoch info, s_rate s') :: ckpt st)) = c.
+Proof.
+  intros rnd p decl dflt st s tr v kw u Hwf (Hep & Hes & Hrl & Hrlb & Hesb & (prev & Hprev & Hlr) & Hopt) Hlt Hck Hcol.
+  pose proof Hwf as (W1 & W2 & W3 & W4 & W5 & W6 & W7).
+  assert (Hesw : wait (s_es s) = 0 \/ bad (s_es s) = 0).
+  { destruct Hes as (_ & ? & ? & Hz & _). destruct (Z.ltb_spec 0 (wait (s_es s))); [right; auto | left; lia]. }
+  assert (Hrlw : wait (s_rl s) = 0 \/ bad (s_rl s) = 0).
+  { destruct Hrl as (_ & ? & ? & Hz & _). destruct (Z.ltb_spec 0 (wait (s_rl s))); [right; auto | left; lia]. }
+  assert (Hesb0 : 0 <= bad (s_es s)) by (destruct Hes as (_ & _ & ? & _); auto).
+  assert (Hrlb0 : 0 <= bad (s_rl s)) by (destruct Hrl as (_ & _ & ? & _); auto).
+  set (es' := rule_step (s_es s) (es_thr p) v).
+  set (rl1 := rule_step (s_rl s) (rlr_thr p) v).
+  set (fire := bad rl1 =? rlr_pat p).
+  set (rl' := if fire then mkRule (rlr_cool p) (Some v) 0 else rl1).
+  set (rate' := new_rate p (s_rate s) fire).
+  set (e := last_epoch (cache st) + 1).
+  set (info := mkRow e (wait es') (es_pat p - bad es') (wait rl') (rlr_pat p - bad rl') (Some rate') (Some tr) (Some v) u).
+  assert (Hstep : s_step p s v =
+                  (negb (match p_num p with None => false | Some n => n <=? e end || es_fired p (mkS e es' rl' rate')),
+                   mkS e es' rl' rate')).
+  { unfold s_step. rewrite Hep. reflexivity. }
+  intros c s'. subst c s'. rewrite Hstep. cbn [fst snd s_rate s_epoch].
+  exists info. cbn [r_lr r_user r_val r_train r_epoch r_esres r_espcd r_rlrres r_rlrpcd info].
+  assert (Hupd : update rnd p decl dflt st tr v kw =
+    inr (negb (match p_num p with None => false | Some n => n <=? e end || es_fired p (mkS e es' rl' rate')),
+         mkState (cache st ++ [info])
+                 (csv st ++ [mkCrow e (wait es') (es_pat p - bad es') (wait rl') (rlr_pat p - bad rl') (rnd rate') tr v
+                                    (map (fun nv => print_uval (snd nv)) u)])
+                 rate' ((e, rate') :: ckpt st))).
+  { unfold update. fold e. replace (e - 1) with (last_epoch (cache st)) by (unfold e; lia).
+    rewrite Hprev, Hck, Hcol. unfold e.
+    rewrite (es_step_spec p (cache st) prev (s_es s) v Hes Hprev Hlt).
+    unfold lr_of in Hlr. rewrite Hlr, Hopt.
+    rewrite (rlr_step_spec p (cache st) prev (s_rl s) v (s_rate s) Hrl Hprev Hrlb).
+    fold es' rl1 fire rl' rate' e. fold info.
+    f_equal. f_equal.
+    unfold es_fired. cbn [s_es].
+    pose proof (rule_step_bad (s_es s) (es_thr p) v Hesb0) as Hb. fold es' in Hb.
+    unfold nonzero.
+    destruct (Z.eqb_spec (es_thr p) 0) as [E0|E0].
+    - destruct (Z.ltb_spec 0 (es_thr p)); [lia|]. cbn [negb andb orb].
+      rewrite orb_false_r. destruct (p_num p); auto.
+      destruct (Z.ltb_spec e z), (Z.leb_spec z e); auto; lia.
+    - destruct (Z.ltb_spec 0 (es_thr p)); [|lia]. cbn [negb andb].
+      destruct (Z.eqb_spec (es_pat p - bad es') 0), (Z.eqb_spec (bad es') (es_pat p)); try lia; cbn [negb orb].
+      + rewrite orb_true_r. reflexivity.
+      + rewrite orb_false_r. destruct (p_num p); auto.
+        destruct (Z.ltb_spec e z), (Z.leb_spec z e); auto; lia. }
+  split; [exact Hupd|].
+  split; [reflexivity|]. split; [reflexivity|]. split; [reflexivity|]. split; [reflexivity|]. split; [reflexivity|].
+  split.
+  - (* Inv *)
+    unfold Inv. cbn [cache opt s_epoch s_es s_rl s_rate]. rewrite last_epoch_snoc. fold e.
+    split; [|split; [|split; [|split; [|split; [|split]]]]].
+    + reflexivity.
+    + apply RInv_step; auto.
+    + unfold rl', fire. destruct (Z.eqb_spec (bad rl1) (rlr_pat p)).
+      * eapply RInv_reset; eauto; cbn; lia.
+      * apply RInv_step; auto.
+    + unfold rl', fire. pose proof (rule_step_bad (s_rl s) (rlr_thr p) v Hrlb0) as Hb. fold rl1 in Hb.
+      destruct (Z.eqb_spec (bad rl1) (rlr_pat p)); cbn [bad]; lia.
+    + pose proof (rule_step_bad (s_es s) (es_thr p) v Hesb0) as Hb. fold es' in Hb. lia.
+    + exists info. unfold e. rewrite hget_new. split; auto.
+    + reflexivity.
+  - (* continue_training *)
+    unfold continue_training. cbn [cache]. rewrite last_epoch_snoc. fold e. unfold e at 1. rewrite hget_new. fold e.
+    cbn [r_espcd info]. unfold es_fired. cbn [s_es]. unfold nonzero.
+    pose proof (rule_step_bad (s_es s) (es_thr p) v Hesb0) as Hb. fold es' in Hb.
+    destruct (Z.eqb_spec (es_thr p) 0) as [E0|E0].
+    + destruct (Z.ltb_spec 0 (es_thr p)); [lia|]. cbn [negb andb orb].
+      rewrite orb_false_r. destruct (p_num p); auto.
+      destruct (Z.ltb_spec e z), (Z.leb_spec z e); auto; lia.
+    + destruct (Z.ltb_spec 0 (es_thr p)); [|lia]. cbn [negb andb].
+      destruct (Z.eqb_spec (es_pat p - bad es') 0), (Z.eqb_spec (bad es') (es_pat p)); try lia; cbn [negb orb].
+      * rewrite orb_true_r. reflexivity.
+      * rewrite orb_false_r. destruct (p_num p); auto.
+        destruct (Z.ltb_spec e z), (Z.leb_spec z e); auto; lia.
+Qed.
+
+(* ---------- runs ------------------------------------------------------------------------------- *)
+Lemma run_cons_ok : forall rnd rd p decl dflt st s t c st2,
+  s_restart s = false -> update rnd p decl dflt st (s_train s) (s_val s) (s_kw s) = inr (c, st2) ->
+  run rnd rd p decl dflt st (s :: t)
+  = (OOk c (continue_training p st2) (opt st2)
+         (match hget (cache st2) (last_epoch (cache st2)) with Some r => r | None => row0 p end)
+       :: fst (run rnd rd p decl dflt st2 t), snd (run rnd rd p decl dflt st2 t)).
+Proof.
+  intros. cbn [run]. rewrite H, H0. destruct (run rnd rd p decl dflt st2 t). reflexivity.
+Qed.
+
+Lemma s_run_cons : forall p s v t,
+  s_run p s (v :: t) = ((fst (s_step p s v), s_rate (snd (s_step p s v))) :: fst (s_run p (snd (s_step p s v)) t),
+                        snd (s_run p (snd (s_step p s v)) t)).
+Proof.
+  intros. cbn [s_run]. destruct (s_step p s v). cbn [fst snd]. destruct (s_run p s0 t). reflexivity.
+Qed.
+
+Lemma not_fired_lt : forall p s v, wf p -> 0 <= bad (s_es s) < es_pat p ->
+  es_fired p (snd (s_step p s v)) = false -> bad (s_es (snd (s_step p s v))) < es_pat p.
+Proof.
+  intros p s v (W1 & W2 & _) Hb. unfold s_step, es_fired. cbn [snd s_es].
+  pose proof (rule_step_bad (s_es s) (es_thr p) v (proj1 Hb)) as Hr.
+  destruct (Z.ltb_spec 0 (es_thr p)).
+  - cbn [andb]. intro E. apply Z.eqb_neq in E. lia.
+  - intros _. assert (es_thr p = 0) as -> by lia. rewrite rule_step_thr0. lia.
+Qed.
+
+Lemma run_follows : forall rnd rd p decl dflt steps st s,
+  wf p -> Inv p dflt st s -> bad (s_es s) < es_pat p -> plain decl steps ->
+  quiet_before_last p s (map s_val steps) = true ->
+  map obs_core (fst (run rnd rd p decl dflt st steps)) = map rule_obs (fst (s_run p s (map s_val steps))) /\
+  Inv p dflt (snd (run rnd rd p decl dflt st steps)) (snd (s_run p s (map s_val steps))).
+Proof.
+  intros rnd rd p decl dflt steps. induction steps as [|x t IH]; intros st s Hwf HI Hlt Hpl Hq.
+  - cbn. auto.
+  - inversion Hpl as [|? ? (Hr & Hck & (u & Hcol)) Hpl']; subst.
+    destruct (update_follows rnd p decl dflt st s (s_train x) (s_val x) (s_kw x) u Hwf HI Hlt Hck Hcol)
+      as (info & Hupd & Hlr & _ & _ & _ & _ & HI' & Hct).
+    rewrite (run_cons_ok _ _ _ _ _ _ _ _ _ _ Hr Hupd). cbn [map]. rewrite s_run_cons. cbn [fst snd map].
+    rewrite Hct. cbn [cache opt]. rewrite last_epoch_snoc, hget_new.
+    destruct t as [|y t'].
+    + cbn. unfold obs_core, rule_obs. cbn [fst snd]. rewrite Hlr. split; [reflexivity|exact HI'].
+    + assert (Hnf : es_fired p (snd (s_step p s (s_val x))) = false /\
+                    quiet_before_last p (snd (s_step p s (s_val x))) (map s_val (y :: t')) = true).
+      { cbn [map quiet_before_last] in Hq. cbn [map]. apply andb_prop in Hq. destruct Hq as [Hq1 Hq2].
+        apply negb_true_iff in Hq1. auto. }
+      destruct Hnf as [Hnf Hq'].
+      assert (Hb0 : 0 <= bad (s_es s)) by (destruct HI as (_ & (_ & _ & ? & _) & _); auto).
+      pose proof (not_fired_lt p s (s_val x) Hwf (conj Hb0 Hlt) Hnf) as Hlt'.
+      destruct (IH _ _ Hwf HI' Hlt' Hpl' Hq') as [IH1 IH2].
+      split; [|exact IH2].
+      rewrite IH1. unfold obs_core at 1, rule_obs at 1. cbn [fst snd]. rewrite Hlr. reflexivity.
+Qed.
+
+Lemma trace_follows_rules : forall rnd rd p decl dflt steps,
+  wf p -> plain decl steps -> quiet_before_last p (s_init p dflt) (map s_val steps) = true ->
+  map obs_core (fst (run rnd rd p decl dflt (init_state p dflt) steps))
+  = map rule_obs (fst (s_run p (s_init p dflt) (map s_val steps))).
+Proof.
+  intros. eapply run_follows; eauto using Inv_init.
+  destruct H as (_ & ? & _). cbn. lia.
+Qed.
+
+(* ---------- the index arithmetic recovers the last reset ------------------------------------------ *)
+Lemma RInv_last_reset : forall res pcd pat c r prev,
+  RInv res pcd pat c r -> hget c (last_epoch c) = Some prev ->
+  let j := last_epoch c + 1 - pat + pcd prev - 1 in
+  (exists rj, hget c j = Some rj /\ pcd rj = pat /\ r_val rj = ref r) /\
+  (forall i ri, j < i <= last_epoch c -> hget c i = Some ri -> pcd ri < pat).
+Proof.
+  intros res pcd pat c r prev ((prev' & Hp' & _ & Hpcd) & _ & Hb & _ & (ri & Hri & Hrv) & Hk) Hprev j.
+  rewrite Hprev in Hp'. injection Hp' as <-.
+  assert (Hj : j = last_epoch c - bad r) by (unfold j; lia).
+  split.
+  - destruct (Hk (bad r)) as (rk & Hrk & Hpk); [lia|]. rewrite Hri in Hrk. injection Hrk as <-.
+    exists ri. rewrite Hj. repeat split; auto. lia.
+  - intros i ri' Hi Hget. destruct (Hk (last_epoch c - i)) as (rk & Hrk & Hpk); [lia|].
+    replace (last_epoch c - (last_epoch c - i)) with i in Hrk by lia. rewrite Hget in Hrk. injection Hrk as <-. lia.
+Qed.
+
+Lemma reference_epoch_is_last_reset : forall rnd rd p decl dflt steps prev,
+  wf p -> plain decl steps -> quiet_before_last p (s_init p dflt) (map s_val steps) = true ->
+  let c := cache (snd (run rnd rd p decl dflt (init_state p dflt) steps)) in
+  hget c (last_epoch c) = Some prev ->
+  let epoch := last_epoch c + 1 in
+  let es_epoch := epoch - es_pat p + r_espcd prev - 1 in
+  let rlr_epoch := epoch - rlr_pat p + r_rlrpcd prev - 1 in
+  ((exists rj, hget c es_epoch = Some rj /\ r_espcd rj = es_pat p) /\
+   (forall i ri, es_epoch < i <= last_epoch c -> hget c i = Some ri -> r_espcd ri < es_pat p)) /\
+  ((exists rj, hget c rlr_epoch = Some rj /\ r_rlrpcd rj = rlr_pat p) /\
+   (forall i ri, rlr_epoch < i <= last_epoch c -> hget c i = Some ri -> r_rlrpcd ri < rlr_pat p)).
+Proof.
+  intros rnd rd p decl dflt steps prev Hwf Hpl Hq c Hprev epoch es_epoch rlr_epoch.
+  assert (Hlt : bad (s_es (s_init p dflt)) < es_pat p) by (destruct Hwf as (_ & ? & _); cbn; lia).
+  destruct (run_follows rnd rd p decl dflt steps _ _ Hwf (Inv_init p dflt Hwf) Hlt Hpl Hq) as [_ HI].
+  destruct HI as (_ & Hes & Hrl & _). fold c in Hes, Hrl.
+  destruct (RInv_last_reset _ _ _ _ _ _ Hes Hprev) as ((rj & H1 & H2 & _) & H3).
+  destruct (RInv_last_reset _ _ _ _ _ _ Hrl Hprev) as ((rj' & H1' & H2' & _) & H3').
+  split; (split; [eauto|auto]).
+Qed.
+
+(* ---------- the clauses of the property for the last epoch of any run ---------------------------------- *)
+Lemma run_app : forall rnd rd p decl dflt a b st,
+  run rnd rd p decl dflt st (a ++ b)
+  = (fst (run rnd rd p decl dflt st a) ++ fst (run rnd rd p decl dflt (snd (run rnd rd p decl dflt st a)) b),
+     snd (run rnd rd p decl dflt (snd (run rnd rd p decl dflt st a)) b)).
+Proof.
+  induction a as [|s t IH]; intros b st.
+  - cbn. destruct (run rnd rd p decl dflt st b). reflexivity.
+  - cbn [app run]. destruct (if s_restart s then restart rd p decl dflt st else inr st) as [e|st1].
+    + rewrite IH. destruct (run rnd rd p decl dflt st t). cbn. reflexivity.
+    + destruct (update rnd p decl dflt st1 (s_train s) (s_val s) (s_kw s)) as [e|[c st2]].
+      * rewrite IH. destruct (run rnd rd p decl dflt st1 t). cbn. reflexivity.
+      * rewrite IH. destruct (run rnd rd p decl dflt st2 t). cbn. reflexivity.
+Qed.
+
+Lemma s_run_app : forall p a b s,
+  s_run p s (a ++ b) = (fst (s_run p s a) ++ fst (s_run p (snd (s_run p s a)) b), snd (s_run p (snd (s_run p s a)) b)).
+Proof.
+  induction a as [|v t IH]; intros b s.
+  - cbn. destruct (s_run p s b). reflexivity.
+  - cbn [app]. rewrite (s_run_cons p s v (t ++ b)), (s_run_cons p s v t), IH. cbn. reflexivity.
+Qed.
+
+Lemma quiet_snoc : forall p vals s v, quiet_before_last p s (vals ++ [v]) = es_quiet p s vals.
+Proof.
+  induction vals as [|a t IH]; intros s v; [reflexivity|].
+  cbn [app quiet_before_last es_quiet]. rewrite <- (IH _ v). destruct (t ++ [v]) eqn:E; [destruct t; discriminate|reflexivity].
+Qed.
+
+Lemma es_quiet_before : forall p vals s, es_quiet p s vals = true -> quiet_before_last p s vals = true.
+Proof.
+  induction vals as [|a t IH]; intros s H; [reflexivity|].
+  cbn [es_quiet quiet_before_last] in *. apply andb_prop in H. destruct H as [H1 H2].
+  destruct t; [reflexivity|]. rewrite H1. cbn [andb]. auto.
+Qed.
+
+Lemma plain_app : forall decl a b, plain decl (a ++ b) -> plain decl a /\ plain decl b.
+Proof. intros. apply Forall_app. exact H. Qed.
+
+Lemma s_epoch_after : forall p vals s, s_epoch (snd (s_run p s vals)) = s_epoch s + Z.of_nat (List.length vals).
+Proof.
+  induction vals as [|v t IH]; intros s; [cbn; lia|].
+  rewrite s_run_cons. cbn [snd]. rewrite IH. unfold s_step. cbn [snd s_epoch List.length]. lia.
+Qed.
+
+(* last epoch of an uninterrupted run during which early stopping had not fired before *)
+Lemma last_epoch_follows : forall rnd rd p decl dflt steps x,
+  wf p -> plain decl (steps ++ [x]) -> es_quiet p (s_init p dflt) (map s_val steps) = true ->
+  let s := s_after p dflt (map s_val steps) in
+  let c := fst (s_step p s (s_val x)) in
+  let s' := snd (s_step p s (s_val x)) in
+  exists info,
+    fst (run rnd rd p decl dflt (init_state p dflt) (steps ++ [x]))
+    = fst (run rnd rd p decl dflt (init_state p dflt) steps) ++ [OOk c c (s_rate s') info] /\
+    r_lr info = Some (s_rate s') /\
+    opt (snd (run rnd rd p decl dflt (init_state p dflt) (steps ++ [x]))) = s_rate s'.
+Proof.
+  intros rnd rd p decl dflt steps x Hwf Hpl Hq s c s'.
+  destruct (plain_app _ _ _ Hpl) as [Hpa Hpb].
+  assert (Hlt0 : bad (s_es (s_init p dflt)) < es_pat p) by (destruct Hwf as (_ & ? & _); cbn; lia).
+  destruct (run_follows rnd rd p decl dflt steps _ _ Hwf (Inv_init p dflt Hwf) Hlt0 Hpa (es_quiet_before _ _ _ Hq)) as [_ HI].
+  fold (s_after p dflt (map s_val steps)) in HI. fold s in HI.
+  assert (Hlt : bad (s_es s) < es_pat p).
+  { clear - Hwf Hq Hlt0. unfold s, s_after. revert Hq Hlt0. generalize (s_init p dflt).
+    induction (map s_val steps) as [|v t IH]; intros s0 Hq Hlt0; [exact Hlt0|].
+    rewrite s_run_cons. cbn [snd]. cbn [es_quiet] in Hq. apply andb_prop in Hq. destruct Hq as [H1 H2].
+    apply negb_true_iff in H1. apply IH; auto.
+    (* bad stays below patience while not fired *)
+    assert (Hb0 : 0 <= bad (s_es s0) \/ bad (s_es s0) < 0) by lia.
+    destruct Hb0 as [Hb0|Hb0].
+    - apply not_fired_lt; auto.
+    - destruct Hwf as (W1 & W2 & _). unfold s_step. cbn [snd s_es]. unfold rule_step.
+      destruct (0 <? wait (s_es s0)); cbn [bad]; try lia. destruct (fails (ref (s_es s0)) v (es_thr p)); cbn [bad]; lia. }
+  inversion Hpb as [|? ? (Hr & Hck & (u & Hcol)) _]; subst.
+  destruct (update_follows rnd p decl dflt _ s (s_train x) (s_val x) (s_kw x) u Hwf HI Hlt Hck Hcol)
+    as (info & Hupd & Hlr & _ & _ & _ & _ & _ & Hct).
+  exists info. rewrite run_app. cbn [fst snd]. rewrite (run_cons_ok _ _ _ _ _ _ _ _ _ _ Hr Hupd).
+  cbn [run fst snd]. rewrite Hct. cbn [cache opt]. rewrite last_epoch_snoc, hget_new.
+  fold c s'. repeat split; auto.
 Qed.
